@@ -64,6 +64,14 @@ type Expect struct {
 	LineHeight float64             `json:"line_height,omitempty"`
 	MarginTop  float64             `json:"margin_top,omitempty"`
 	MarginBottom float64           `json:"margin_bottom,omitempty"`
+	// Paras: the paragraphs (word lists) that orphans/widows apply to, with the values
+	Paras   [][]string `json:"paras,omitempty"`
+	Orphans int        `json:"orphans,omitempty"`
+	Widows  int        `json:"widows,omitempty"`
+	// KeepTogether: word groups that must be on one page (break-inside: avoid, fits a page)
+	KeepTogether [][]string `json:"keep_together,omitempty"`
+	// KeepWithNext: [a, b]: the line of a and the line of b must be on the same page (break-after: avoid)
+	KeepWithNext [][2]string `json:"keep_with_next,omitempty"`
 	Conserve   bool                `json:"conserve,omitempty"` // C02 word conservation applies
 	Geometry   bool                `json:"geometry,omitempty"` // C12 geometry clauses apply
 	Group      string              `json:"group,omitempty"`    // shared-* history group
